@@ -3,6 +3,7 @@
    Statements only. *)
 From Coq Require Import List NArith Bool.
 From Verif Require Import Bytes RobustModel VerboseIterModel VerboseIterProofs.
+From Verif Require Import ExprTreeModel MsTextModel DisplayIterModel DisplayIterProofs MsTextCompose DisplayIterRoundTrip.
 Import ListNotations.
 Local Open Scope N_scope.
 
@@ -55,3 +56,65 @@ Example verbose_example_fuel :
   verbose_run 12 0 [v_initial (g_of_r ex_tree) None] = RErr E_OUT_OF_FUEL /\
   (exists ys, verbose_run 13 0 [v_initial (g_of_r ex_tree) None] = ROk ys /\ length ys = 13%nat).
 Proof. split; [vm_compute; reflexivity|]. eexists. split; vm_compute; reflexivity. Qed.
+
+(* ---------------------------------------------------------------------------------------------
+   C10: the printer of miniscript/display.rs AS CODED - `conditional_fmt(DisplayTypes::None)`, a
+   loop over the verbose pre-order items of the private `DisplayNode` tree (Ms/DisplayIterModel.v:
+   `display_item` is the loop body, `dtree` is `as_node`/`nary_index`/`fragment_name`/`is_wrapper`
+   for the full AST incl. the synthetic k / key / hash / lock-time children and the sugar
+   t: l: u: pk() pkh() and_n) - equals the recursive printer of MsTextModel.v ... *)
+Theorem display_iter_tree_eq_recursive_C10 : forall t : gtree dlabel,
+  display_iter_tree t = ROk (drec false t).
+Proof. exact display_iter_tree_eq_recursive. Qed.
+Print Assumptions display_iter_tree_eq_recursive_C10.
+
+Theorem display_iter_eq_recursive_C10 :
+  forall (print_key : key -> tbytes) (print_hash : hkind -> tbytes -> tbytes) (m : ms),
+  display_iter print_key print_hash m = ROk (ms_to_text print_key print_hash m).
+Proof. exact display_iter_eq_recursive. Qed.
+Print Assumptions display_iter_eq_recursive_C10.
+
+(* ... so C10's round trip and fixed point hold for the text the loop writes (same hypotheses as
+   C10_ms_text_roundtrip / C10_ms_text_fixpoint of Properties/C10.v) *)
+Theorem display_iter_roundtrip_C10 :
+  forall (print_key : key -> tbytes) (parse_key : tbytes -> option key)
+         (print_hash : hkind -> tbytes -> tbytes) (parse_hash : hkind -> tbytes -> option tbytes)
+         (chk : ms -> bool),
+  (forall k, parse_key (print_key k) = Some k) ->
+  (forall h b, parse_hash h (print_hash h b) = Some b) ->
+  (forall k, forallb name_char (print_key k) = true) ->
+  (forall h b, forallb name_char (print_hash h b) = true) ->
+  forall m, ms_text_ok chk m = true -> depth (to_tree print_key print_hash m) <= MAX_RECURSION_DEPTH ->
+  exists s, display_iter print_key print_hash m = ROk s /\
+            from_str_model parse_key parse_hash chk s = Ok m.
+Proof. exact display_iter_roundtrip. Qed.
+Print Assumptions display_iter_roundtrip_C10.
+
+Theorem display_iter_fixpoint_C10 :
+  forall (print_key : key -> tbytes) (parse_key : tbytes -> option key)
+         (print_hash : hkind -> tbytes -> tbytes) (parse_hash : hkind -> tbytes -> option tbytes)
+         (chk : ms -> bool),
+  (forall k, parse_key (print_key k) = Some k) ->
+  (forall h b, parse_hash h (print_hash h b) = Some b) ->
+  (forall k, forallb name_char (print_key k) = true) ->
+  (forall h b, forallb name_char (print_hash h b) = true) ->
+  forall s m, from_str_model parse_key parse_hash chk s = Ok m ->
+  depth (to_tree print_key print_hash m) <= MAX_RECURSION_DEPTH ->
+  exists s1, display_iter print_key print_hash m = ROk s1 /\
+             from_str_model parse_key parse_hash chk s1 = Ok m /\
+             (forall m', from_str_model parse_key parse_hash chk s1 = Ok m' ->
+                         display_iter print_key print_hash m' = ROk s1).
+Proof. exact display_iter_fixpoint. Qed.
+Print Assumptions display_iter_fixpoint_C10.
+
+(* non-vacuity: and_v(v:pk(0),l:thresh(2,pk(1),s:pk(2),a:pkh(3))) - 29 items, keys printed in decimal *)
+Definition ex_disp_ms : ms :=
+  MAndV (MVerify (MCheck (MPkK 0)))
+        (MOrI MFalse (MThresh 2 [MCheck (MPkK 1); MSwap (MCheck (MPkK 2)); MAlt (MCheck (MPkH 3))])).
+Example display_iter_example :
+  display_iter dec (fun _ s => s) ex_disp_ms =
+  ROk [97; 110; 100; 95; 118; 40; 118; 58; 112; 107; 40; 48; 41; 44; 108; 58; 116; 104; 114; 101;
+       115; 104; 40; 50; 44; 112; 107; 40; 49; 41; 44; 115; 58; 112; 107; 40; 50; 41; 44; 97;
+       58; 112; 107; 104; 40; 51; 41; 41; 41] /\
+  match verbose_order (dtree dec (fun _ s => s) ex_disp_ms) with ROk ys => length ys | _ => O end = 29%nat.
+Proof. split; vm_compute; reflexivity. Qed.
